@@ -10,8 +10,6 @@ import (
 	"bytes"
 	"fmt"
 	"math/big"
-	"sync"
-	"time"
 
 	"go.dedis.ch/kyber/v4"
 	"verif/harness/alpha"
@@ -338,18 +336,12 @@ func Run(c *vf.Check) {
 		}
 	}
 	depth := 2
-	var tmu sync.Mutex
-	cpu := map[string]time.Duration{}
 	vf.Parallel(len(jobs), func(i int) {
 		j := jobs[i]
-		t0 := time.Now()
 		explore(c, envs[j.g.Name], menus[j.g.Name], j.o1, depth, !c.Thorough() && expensive(j.g))
-		tmu.Lock()
-		cpu[j.g.Name] += time.Since(t0)
-		tmu.Unlock()
 	})
 	for _, g := range gs {
-		c.Note(fmt.Sprintf("%s: menu=%d operations, depth=%d, second-step-reduced=%v, cpu=%.1fs", g.Name, len(menus[g.Name]), depth, !c.Thorough() && expensive(g), cpu[g.Name].Seconds()))
+		c.Note(fmt.Sprintf("%s: menu=%d operations, depth=%d, second-step-reduced=%v", g.Name, len(menus[g.Name]), depth, !c.Thorough() && expensive(g)))
 	}
 	c.Finish("engine S (stateless, no state merging): every program of depth <= 2 over the operation menu {Add,Sub (27 aliasing patterns each), Neg, Set, Clone, Mul(s,p|nil), Null, Base, Pick, Embed; scalar Add,Sub,Mul,Div (8 patterns each), Neg, Inv, Set, Clone, Zero, One, SetInt64, SetBytes, Pick} on a pool of 3 points (one in non-normalised form) and 2 scalars, each program replayed from a fresh pool. "+
 		"After every step: (1) returned value Equal to and encoded as the receiver, (2) receiver encoding = reference execution of that step on fresh decode(encode(.)) copies, (3) every other variable's encoding unchanged. "+
